@@ -83,7 +83,12 @@ theorem missing_field_omitted (fs : Fields) (cs : List Char) (hdot : '.' ∉ cs)
 theorem doc_literal_omits (c : Ctx) (hign : c.ign = true) (k : String) (e : Val)
     (hk : classify k = .plain) (he : eval c e = .ok none) :
     eval c (.doc [(k, e)]) = .ok (some (.doc [])) := by
-  simp [eval, evalDoc, hk, he, hign, bind, Except.bind]
+  rw [eval_single, evalDoc]
+  · simp [hk, he, hign, bind, Except.bind, evalDoc]
+  · intro xs h
+    subst h
+    obtain ⟨ys, hy⟩ := eval_arr_ok c xs none he
+    cases hy
 
 /-! ### arrays, sets, strings -/
 
@@ -121,8 +126,9 @@ theorem size_eval (c : Ctx) (e : Val) (xs : List Val) (hshape : e.isArr = false)
   have h2 : mode "$size" e = .whole := by
     cases e <;> simp [Val.isArr] at hshape <;>
       simp [mode, dateOps, datePartOps, wholeOps, unaryArithOps, groupingOps, hasTzKeys]
-  simp [eval, evalDoc, h1, h2, he, applyWhole, unaryArithOps, sizeOp, bind, Except.bind,
-    Except.map]
+  rw [eval_whole' c "$size" e (by decide) (by decide) (by decide) (Or.inl (by decide))
+    (Or.inl (by decide)) h2, he]
+  simp [applyWhole, unaryArithOps, sizeOp, Except.bind, Except.map]
 
 /-- `$in` is Python list membership -/
 theorem in_spec (x : Val) (xs : List Val) : inOp x (.arr xs) = .ok (.bool (pyIn x xs)) := rfl
